@@ -6,6 +6,7 @@ from .. import casing, common as c, corpus, l2, translate
 
 THEOREMS = [("Sylvia.Thm.C03", "C03." + t) for t in
             ["at_most_one", "wrapper_accepts_encoded", "wrapper_ok_sound", "unknown_lists_all", "not_single_key_rejected"]] + \
+           [("Sylvia.Thm.C03Domain", "C03." + t) for t in ["wrapper_iff_on_domain", "wrapper_accepts_iff_some_part", "inDomainB_sound"]] + \
            [("Sylvia.Thm.C05Gen", "C05.parts_faithful_closed"), ("Sylvia.Thm.Obl.Published", "Obl.published_rule_is_wire_rule"),
             ("Sylvia.Lemmas.ValuePass", "Sylvia.Serde.normalize_canon"), ("Sylvia.Lemmas.ValuePass", "Sylvia.Serde.decodeFields_sorted")]
 
@@ -52,12 +53,18 @@ def run(ctx):
     ops, docs = build_ops(ctx, progs)
     rows, ndiff = l2.execute(ctx, "L2-wrapper", progs, exes, ops)
     l2.report_diffs(ctx, "L2-wrapper", rows)
+    # which documents lie in the domain of C03.wrapper_iff_on_domain (executable form, proved sound): model only
+    dom_ops = {pid: ["dom " + o[4:] for o in lst if o.startswith("dew ")] for pid, lst in ops.items()}
+    _, dm_ops, dm_index = l2.run_both(ctx, "dom", progs, dom_ops)
+    dm_out = c.run_driver(dm_ops)
+    in_domain = {(ix[0], ix[1][4:]): o for o, ix in zip(dm_out, dm_index) if ix is not None}
     # ---- direct oracle on the implementation
     by_prog = {}
     for pid, op, a, b in rows:
         by_prog.setdefault(pid, []).append((op, a))
     progs_by_id = {p["id"]: p for p in progs}
     stats = {}
+    dstats = {}
     nviol = 0
     distinct = set()
     for pid, items in by_prog.items():
@@ -110,7 +117,14 @@ def run(ctx):
             key = ("accept" if len(accepted) == 1 else "reject", res.split(" ")[0])
             stats[key] = stats.get(key, 0) + 1
             distinct.add(text)
-            if why:
+            dom = in_domain.get((pid, "%s %s" % (kind, text)), "?")
+            dstats[dom] = dstats.get(dom, 0) + 1
+            if why and dom == "in":
+                # inside the domain the theorem says the two decoders agree: a difference here is never a listed finding
+                nviol += 1
+                ctx.violation("wrapper-differs-inside-domain", "%s document %s (no repeated member, no wide number, no lenient sequence): %s" % (kind, text[:200], why),
+                              {"program": corpus.render_module(prog), "op": "%s dew %s %s" % (pid, kind, text), "parts": part_res, "wrapper": res})
+            elif why:
                 nviol += 1
                 if l2.has_dup_members(text):
                     cls = "duplicate-member"
@@ -136,7 +150,7 @@ def run(ctx):
                                "parts": part_res, "wrapper": res, "how": "corpus binary: echo '<op>' | .cache/target/debug/<shard>"})
     ctx.add_stream("L2-wrapper", len(rows), len(distinct), samples=[r[1] for r in rows[3:6]],
                    programs=len(progs), model_disagreements=ndiff, oracle_failures=nviol,
-                   outcome_histogram={"%s/%s" % k: v for k, v in sorted(stats.items())})
+                   outcome_histogram={"%s/%s" % k: v for k, v in sorted(stats.items())}, documents_by_domain=dstats)
     ctx.cov["traces_validated_against_impl"] += len(rows)
     ctx.cov["rule"] = ("for every part and message of every generated program: the well-formed document and ~25 derived documents (unknown name, two keys, "
                        "duplicated key/field, non-object, bad body, wrong type, missing/extra/reordered fields, trailing bytes, name variants), each decoded by "
